@@ -9,6 +9,7 @@ mod c14;
 mod c15;
 mod c19;
 mod extfut;
+mod fwaker;
 mod cview;
 
 #[cfg(all(feature = "track-alloc", not(miri)))]
@@ -80,7 +81,7 @@ fn main() {
         }
     }));
     let mut rep = vmon::Report::new();
-    if !["c10", "c11", "c12", "c13", "c14", "c15", "c19", "extfut"].contains(&a[1].as_str()) {
+    if !["c10", "c11", "c12", "c13", "c14", "c15", "c19", "extfut", "fwaker"].contains(&a[1].as_str()) {
         eprintln!("unknown property {}", a[1]);
         std::process::exit(64);
     }
@@ -95,6 +96,7 @@ fn main() {
         "c14" => c14::run(&args, &mut rep),
         "c15" => c15::run(&args, &mut rep),
         "extfut" => extfut::run(&args, &mut rep),
+        "fwaker" => fwaker::run(&args, &mut rep),
         _ => c19::run(&args, &mut rep),
     }));
     if r.is_err() {
